@@ -238,6 +238,7 @@ class Body:
                 succ[i] = [t['target']] if t['target'] is not None else []
             else:
                 succ[i] = []
+        raw_succ = [list(x) for x in succ]
         # Jump threading for boolean/constant temporaries (`matches!`, `&&`, `||`, and the result
         # of a spliced helper function):
         #   X: ...; L = const k; goto I1     I1..In: only assignments to temporaries; goto
@@ -349,6 +350,17 @@ class Body:
             for s_ in ss:
                 pred[s_].append(i)
         self._succ, self._pred = succ, pred
+        # blocks that execute at all: jump threading skips assignment-only blocks, whose
+        # definitions (the payload of a `Some(x)` handed through a join) still take effect
+        seen = set([0])
+        work = [0]
+        while work:
+            x = work.pop()
+            for y in raw_succ[x]:
+                if y not in seen:
+                    seen.add(y)
+                    work.append(y)
+        self._rawlive = seen
 
     @property
     def succ(self):
@@ -570,7 +582,8 @@ class Body:
     def defs(self):
         if self._defs is None:
             d = defaultdict(list)
-            live = self.live_blocks()
+            self.succ
+            live = self._rawlive
             for i, b in enumerate(self.blocks):
                 if b['cleanup'] or i not in live:
                     continue
